@@ -330,6 +330,35 @@ pub fn eval(ctx: &mut Ctx, op: &str, args: &[Sexp]) -> Option<String> {
                 Err(k) => format!("err {} mem={}", k, hex(&mem)),
             })
         }
+        "bigslice" => {
+            // bigslice <framing> <capacity> <value>: a caller buffer of several GiB (lazily mapped). Capacity is
+            // far above the output length, so the result must be the complete output at the front.
+            let framing = args.first()?.atom()?;
+            let cap: usize = args.get(1)?.atom()?.parse().ok()?;
+            let v = DVal::from_sexp(args.get(2)?)?;
+            let mut huge = match crate::guard::Huge::new(cap) {
+                Some(h) => h,
+                None => return Some("FAIL could not map the buffer".into()),
+            };
+            let r = guard(|| match framing {
+                "plain" => Some(postcard::to_slice(&v, huge.slice_mut()).map(|s| s.to_vec()).map_err(|e| err_name(&e))),
+                "cobs" => Some(postcard::to_slice_cobs(&v, huge.slice_mut()).map(|s| s.to_vec()).map_err(|e| err_name(&e))),
+                a => crc_slice(a, &v, huge.slice_mut()),
+            });
+            let r = match r {
+                Err(()) => return Some("FAIL panic while serialising into a multi-GiB slice".into()),
+                Ok(r) => r?,
+            };
+            if let (Ok(out), Some(Ok(full))) = (&r, unbounded(framing, &v)) {
+                if *out != full || huge.slice_mut()[..out.len()] != out[..] {
+                    ctx.oracle_fail("output into a multi-GiB buffer differs from the unbounded output / is not at the front".into());
+                }
+            }
+            if r.is_err() && unbounded(framing, &v).map(|u| u.is_ok()).unwrap_or(false) {
+                ctx.oracle_fail(format!("serialising into a buffer of {} bytes failed ({:?}) although the output is tiny", cap, r));
+            }
+            Some(ser_str(&r))
+        }
         "cobsenc" => {
             let storage = args.first()?.atom()?;
             let cap: usize = args.get(1)?.atom()?.parse().ok()?;
@@ -800,6 +829,12 @@ pub fn gen_c05(r: &mut Rng, thorough: bool, out: &mut Vec<String>) {
             }
         }
     }
+    // caller buffers at and beyond 2^32 bytes (lazily mapped): nothing may keep a length in 32 bits
+    for cap in [(1usize << 32) - 1, 1 << 32, (1 << 32) + 1, (1 << 32) + 4096, 1 << 33] {
+        for (framing, v) in [("plain", "(u8 7)"), ("plain", "(tuple (str x616263) (u32 70000))"), ("cobs", "(tuple (u8 0) (str x6162))"), ("CRC_32_ISO_HDLC", "(u16 300)")] {
+            out.push(format!("bigslice {} {} {}", framing, cap, v));
+        }
+    }
     // Display-collected strings (collect_str) into bounded storage: piece patterns x every capacity
     let mut patterns: Vec<Vec<String>> = vec![
         vec![], vec!["".into()], vec!["a".into()], vec!["printer.example".into(), ":".into(), "80".into()],
@@ -1129,6 +1164,25 @@ pub fn gen_c20(r: &mut Rng, thorough: bool, out: &mut Vec<String>) {
         let alg = algs[i % algs.len()];
         for storage in ["alloc", "slice", "hvec"] {
             out.push(format!("stack crccobs {} {} {} {} {}", storage, roomy, alg, t, v));
+        }
+        if plain_len > 100 {
+            // block-boundary values: every capacity within a few bytes of the complete frame, for each stack
+            if let Ok(fc) = postcard::to_allocvec_cobs(v) {
+                for cap in fc.len().saturating_sub(3)..=fc.len() + 1 {
+                    out.push(format!("sercap cobs slice {} {}", cap, v));
+                    if HCAPS.contains(&cap) {
+                        out.push(format!("sercap cobs hvec {} {}", cap, v));
+                    }
+                }
+            }
+            let nb = alg_nbytes(alg);
+            let est = plain_len + nb + (plain_len + nb) / 254 + 2;
+            for cap in est.saturating_sub(4)..=est + 1 {
+                out.push(format!("stack crccobs slice {} {} {} {}", cap, alg, t, v));
+                if HCAPS.contains(&cap) {
+                    out.push(format!("stack crccobs hvec {} {} {} {}", cap, alg, t, v));
+                }
+            }
         }
         if i % 4 == 0 {
             // too-small storage: buffer-full, never a panic
